@@ -318,6 +318,8 @@ func allFinite(x, y ir) bool {
 	return x[0] != nil && x[1] != nil && y[0] != nil && y[1] != nil
 }
 
+func init() { Table["C06"] = C06 }
+
 // C06 runs the interval monitor.
 func C06(rc *vk.Rec) {
 	n := rc.N(24000, 2400000)
